@@ -80,9 +80,9 @@ type RunReq struct {
 
 // Event is one entry of the trace.
 type Event struct {
-	Seq   int    `json:"seq"`   // global sequence number in this run
-	Exec  int    `json:"exec"`  // sequence number within the Execute phase, -1 during load
-	Kind  string `json:"kind"`  // new gen alias defer phase os.<op>
+	Seq   int    `json:"seq"`  // global sequence number in this run
+	Exec  int    `json:"exec"` // sequence number within the Execute phase, -1 during load
+	Kind  string `json:"kind"` // new gen alias defer phase os.<op>
 	Gen   string `json:"gen,omitempty"`
 	Pkg   string `json:"pkg,omitempty"`
 	Type  string `json:"type,omitempty"`
